@@ -100,7 +100,15 @@ def item_selector_text(it, cfg):
             return var if slot[0] in ("FOCUS", "ANY") else "<" + slot[1] + ">"
         s = v(it["ps"], "?x" if it["ps"][0] == "FOCUS" else "?y")
         o = v(it["po"], "?x" if it["po"][0] == "FOCUS" else "?y")
-        return "SPARQL \"select ?x where { %s <%s> %s }\"" % (s, it["pp"], o)
+        body = "{ %s <%s> %s }" % (s, it["pp"], o)
+        # the query text is the user's: keyword case, the optional WHERE, what follows the variable (blank, tab, line break, brace)
+        lay = it.get("sparqlLayout", "plain")
+        q = {"plain": "select ?x where " + body, "upper": "SELECT ?x WHERE " + body, "nowhere": "select ?x " + body,
+             "brace": "SELECT ?x" + body, "tab": "select ?x\twhere " + body, "newline": "select ?x\nwhere " + body,
+             "distinct": "select distinct ?x where " + body}[lay]
+        if lay == "newline" and cfg.get("smSyntax") != "json":       # the fixed syntax is line-based
+            q = "select ?x where " + body
+        return "SPARQL \"%s\"" % q
     return "{%s %s %s}" % (_slot(it["ps"], cfg, how), pp, _slot(it["po"], cfg, how))
 
 
